@@ -77,6 +77,12 @@ def handleHandler : List Sexp → Option String
     match guarded (← hDataset? ds) (← hStr? p) (← hStr? q) with
     | .ok (.dods, cds) => pure (match contentLength cds with | some n => toString n | none => "none")
     | _ => pure "n/a"
+  | [atom "h-xdrwf", ds, p, q] => do
+    -- is the constrained dataset in C05's domain (the hypothesis of C06_payload_decodes; proved from hypotheses on
+    -- the source by C06_payload_decodes_source)?  measured on the generated cases
+    match guarded (← hDataset? ds) (← hStr? p) (← hStr? q) with
+    | .ok (_, cds) => pure (toString (Xdr.WF (tmplOf cds) (dataOf cds)))
+    | _ => pure "n/a"
   | [atom "h-proc", list hs, list rs] => do
     -- a history: handlers `(key dataset)`, requests `(key path query)`; the answers in order
     let handlers ← hs.mapM fun h => match h with
